@@ -332,8 +332,16 @@ class Scheduler(object):
     first.go.release()
     ok = self.done.wait(timeout)
     if not ok:
+      import traceback
+      frames = sys._current_frames()
+      dump = []
+      for t in self.threads:
+        fr = frames.get(t.thread.ident)
+        st = ''.join(traceback.format_stack(fr)[-6:]) if fr is not None else '(no frame)'
+        dump.append('%r current=%s\n%s' % (t, t is self.current, st))
       self.abort = True
-      self.error = TimeoutError('watchdog: schedule did not finish in %.0fs' % timeout)
+      self.error = TimeoutError('watchdog: schedule did not finish in %.0fs; step=%d decisions=%d\n%s' % (
+        timeout, self.step, self.decision_no, '\n'.join(dump)))
       for t in self.threads:
         t.go.release()
     for t in self.threads:
